@@ -162,6 +162,41 @@ pub fn run_sim(c: &SimCfg, progress: bool) -> (u64, u64, u64, u64) {
     }
 }
 
+/// What the process did before must not matter: environments of the same types abandoned with unprocessed
+/// instructions in their queues, and a simulation abandoned after two steps, on the thread that runs the next simulation.
+fn pollute(c: &SimCfg, r: &mut Sm) {
+    use bourse_book::types::Side;
+    let t = c.ticks[0];
+    let grid = |r: &mut Sm, tick: u32| -> u32 { (r.range(20, 4000) as u32) * tick };
+    {
+        let mut e: Env = Env::new(r.below(1000), t, c.step_size, r.chance(0.8));
+        for _ in 0..r.range(1, 60) {
+            let _ = e.place_order(if r.chance(0.5) { Side::Bid } else { Side::Ask }, r.range(1, 50) as u32, r.below(100) as u32, if r.chance(0.2) { None } else { Some(grid(r, t)) });
+        }
+        e.cancel_order(0);
+        e.modify_order(0, None, Some(3));
+    }
+    {
+        let mut e: MarketEnv<2, 10> = MarketEnv::new(r.below(1000), [c.ticks[0], c.ticks[1]], c.step_size, true);
+        for _ in 0..r.range(1, 60) {
+            let a = r.below(2) as usize;
+            let _ = e.place_order(a, if r.chance(0.5) { Side::Bid } else { Side::Ask }, r.range(1, 50) as u32, r.below(100) as u32, Some(grid(r, c.ticks[a])));
+        }
+        e.cancel_order((1, 0));
+    }
+    {
+        let mut e: MarketEnv<3, 5> = MarketEnv::new(0, [c.ticks[0], c.ticks[1], c.ticks[2]], c.step_size, true);
+        for _ in 0..r.range(1, 30) {
+            let a = r.below(3) as usize;
+            let _ = e.place_order(a, Side::Bid, 5, 1, Some(grid(r, c.ticks[a])));
+        }
+    }
+    let mut c2 = c.clone();
+    c2.seed = r.next();
+    c2.n_steps = 2;
+    let _ = catch(|| run_sim(&c2, false));
+}
+
 pub fn random_cfg(rng: &mut Sm, i: usize) -> SimCfg {
     // every seventh configuration is a *crowded* one: hundreds of agents per set and full activity, so that single
     // steps carry many hundreds of instructions (batch-size dependent code paths), over few steps to bound the cost
@@ -285,6 +320,11 @@ pub fn c09(ctx: &Ctx) -> i32 {
                     };
                     runs += 1;
                     orders_total += d1.2;
+                    // the repeat runs after unrelated activity on this thread (abandoned environments, another simulation)
+                    if catch(|| pollute(&c, &mut r)).is_err() {
+                        bad("abort", "preparing unrelated environments panicked".into(), &mut viols);
+                        continue;
+                    }
                     let d2 = catch(|| run_sim(&c, false)).unwrap_or((0, 0, 0, 0));
                     runs += 1;
                     if d1 != d2 {
@@ -363,7 +403,7 @@ pub fn c09(ctx: &Ctx) -> i32 {
     let cov = json!({
         "evaluations": runs + children,
         "distinct_nontrivial": d.len(),
-        "rule": "cases = complete simulation runs through sim_runner / market_sim_runner: 8 compositions of the built-in agents through both derive macros (incl. nested sets; 1, 2 and 3 assets), random seeds, step counts 1..120 and 200..420 (every seventh configuration is crowded instead: 150..450 agents per set at full activity, several hundred instructions per step, 3..12 steps), step sizes, ticks 1..10 and agent parameters; each configuration is run twice in-process, once in a child OS process and once in a child with the progress bar (children get perturbed environment variables, working directory and heap), and once more with seed+1; compared through a 128-bit FNV digest of all orders, trades, every recorded series and the clock; distinct = distinct digests; non-trivial = the run traded",
+        "rule": "cases = complete simulation runs through sim_runner / market_sim_runner: 8 compositions of the built-in agents through both derive macros (incl. nested sets; 1, 2 and 3 assets), random seeds, step counts 1..120 and 200..420 (every seventh configuration is crowded instead: 150..450 agents per set at full activity, several hundred instructions per step, 3..12 steps), step sizes, ticks 1..10 and agent parameters; each configuration is run twice in-process (the repeat after unrelated activity on the same thread: environments of the same types abandoned with unprocessed instructions, another simulation abandoned after two steps), once in a child OS process and once in a child with the progress bar (children get perturbed environment variables, working directory and heap), and once more with seed+1; compared through a 128-bit FNV digest of all orders, trades, every recorded series and the clock; distinct = distinct digests; non-trivial = the run traded",
         "samples": samples,
         "in_process_runs": runs,
         "child_process_runs": children,
